@@ -50,7 +50,7 @@ var timeUnsupported = map[string]bool{"NewTimer": true, "NewTicker": true, "Afte
 var runtimeFuncs = map[string]bool{"GOMAXPROCS": true, "NumCPU": true, "Gosched": true, "AddCleanup": true}
 
 type stats struct {
-	files, imports, gos, sends, recvs, selects, mapRanges, closes, timeCalls, runtimeCalls int
+	files, imports, gos, sends, recvs, selects, mapRanges, closes, timeCalls, runtimeCalls, probes int
 }
 
 var st stats
@@ -119,8 +119,8 @@ func main() {
 			}
 		}
 	}
-	fmt.Printf("simrewrite: files=%d imports=%d go=%d send=%d recv=%d select=%d maprange=%d close=%d time=%d runtime=%d\n",
-		st.files, st.imports, st.gos, st.sends, st.recvs, st.selects, st.mapRanges, st.closes, st.timeCalls, st.runtimeCalls)
+	fmt.Printf("simrewrite: files=%d imports=%d go=%d send=%d recv=%d select=%d maprange=%d close=%d time=%d runtime=%d probes=%d\n",
+		st.files, st.imports, st.gos, st.sends, st.recvs, st.selects, st.mapRanges, st.closes, st.timeCalls, st.runtimeCalls, st.probes)
 }
 
 func substTestImports(path string) {
@@ -253,6 +253,15 @@ func rewriteFile(p *packages.Package, f *ast.File, name string) {
 	})
 	astutil.Apply(f, nil, func(c *astutil.Cursor) bool {
 		switch n := c.Node().(type) {
+		case *ast.FuncDecl:
+			// optional observation points (see probePoints): a call to simrt.Probe at function entry
+			if name, ok := probeName(n); ok && n.Body != nil && n.Type.Params != nil && len(n.Type.Params.List) >= 1 && len(n.Type.Params.List[0].Names) >= 1 {
+				arg := ast.NewIdent(n.Type.Params.List[0].Names[0].Name)
+				stmt := &ast.ExprStmt{X: call(sel("simrt", "Probe"), &ast.BasicLit{Kind: token.STRING, Value: strconv.Quote(name)}, call(ast.NewIdent("any"), arg))}
+				n.Body.List = append([]ast.Stmt{stmt}, n.Body.List...)
+				r.needRT = true
+				st.probes++
+			}
 		case *ast.GoStmt:
 			c.Replace(r.rewriteGo(n))
 		case *ast.SendStmt:
@@ -343,6 +352,36 @@ func rewriteFile(p *packages.Package, f *ast.File, name string) {
 		}
 	}
 	writeFile(p.Fset, f, name)
+}
+
+// probePoints: methods whose entry the harness may observe (receiver type name, method name). They are
+// optional: if a tree has no such method nothing is inserted and the oracle that listens stays
+// silent (its probe counter shows zero); nothing else depends on them.
+var probePoints = map[[2]string]string{
+	{"sketch", "frequency"}: "sketch.frequency", // C18: which estimates an eviction decision looked at
+	{"cache", "evictNode"}:   "cache.evictNode",  // C18: every attempt to evict a node for size (argument: the node)
+}
+
+func probeName(fd *ast.FuncDecl) (string, bool) {
+	if fd.Recv == nil || len(fd.Recv.List) != 1 {
+		return "", false
+	}
+	t := fd.Recv.List[0].Type
+	if s, ok := t.(*ast.StarExpr); ok {
+		t = s.X
+	}
+	switch x := t.(type) {
+	case *ast.IndexExpr:
+		t = x.X
+	case *ast.IndexListExpr:
+		t = x.X
+	}
+	id, ok := t.(*ast.Ident)
+	if !ok {
+		return "", false
+	}
+	name, ok := probePoints[[2]string{id.Name, fd.Name.Name}]
+	return name, ok
 }
 
 // commExprs marks the receive expressions that are the communication of a select clause; they
